@@ -285,7 +285,7 @@ def run(ctx, report: Report) -> None:
     freeze_cost_table(ctx, r4)
 
     # ---- R5 (texts compiled by interpretation, bounded) -----------------------------------------------------------------
-    r5 = report.rule('C07-R5', 'work of compiling grows polynomially with the input, family by family (bounded: three sizes per family)', floor=8)
+    r5 = report.rule('C07-R5', 'work of compiling grows polynomially with the input, family by family (bounded: three sizes per family)', floor=6)
     from .e2etab import scaling_table
     scaling_table(ctx, r5, sizes=(6, 12, 24) if ctx.tier == 'quick' else (8, 16, 32, 64))
 
